@@ -47,7 +47,14 @@ def run_cstream(ctx, knobs_fn, on_result, sched_steps=(0, 0, 2, 4), ninputs=5, o
 
 def _one(ctx, rng, knobs_fn, on_result, sched_steps, ninputs, op_weights, nprog, templates, template_prob, only_exact=False):
     try:
-        if templates and rng.random() < template_prob:
+        from .ctemplates import ALL as _CALL
+
+        fams = list(dict.fromkeys(_CALL))  # distinct families, in order
+        if templates and nprog <= 2:
+            # family rotation at the start of every shard (see stream._run_program)
+            gp = fams[(ctx.shard * 2 + nprog - 1) % len(fams)](rng)
+            ctx.stat("programs.rotation")
+        elif templates and rng.random() < template_prob:
             gp = templates(rng)
         else:
             gp = gen_program(rng, knobs_fn(rng))
